@@ -205,6 +205,24 @@ def tool_file(tool, rows):
 
 
 # ------------------------------------------------------------------ generation
+def add_par_y_copy(a, rng):
+    """GENCODE lists a pseudo-autosomal gene twice: `<id>` on chrX and `<id>_PAR_Y` on chrY with the
+    same coordinates (chrY N-masked).  The copy follows the gene (usual order) or precedes it."""
+    import copy
+    i = rng.randrange(len(a.genes))
+    g = a.genes[i]
+    g2 = copy.deepcopy(g)
+    g2.id = g.id + '_PAR_Y'
+    for t in g2.txs:
+        t.id = t.id + '_PAR_Y'
+        if getattr(t, 'protein_id', None):
+            t.protein_id = t.protein_id + '_PAR_Y'
+    g2.chrom = g.chrom + '_Y'
+    a.chroms[g2.chrom] = 'N' * len(a.chroms[g.chrom])
+    a.genes.insert(i + 1 if rng.random() < 0.7 else i, g2)
+    a._gtf = None
+
+
 def trim_chromosomes(a, rng):
     """cut every chromosome right after its last gene (0-2 spare bases), so that gene ends and
     breakpoints fall on the last / second to last chromosome base"""
@@ -304,7 +322,10 @@ def defect(a, rng, r, kind):
 def gen_rows(ctx, a, rng, cap):
     """per-row conversion streams: clean rows over ordered gene pairs and position classes, plus
     defective rows (possibly several defects: the order of the raises is inside the tie)"""
-    pairs = [(d, g) for d in a.genes for g in a.genes if d is not g or rng.random() < 0.25]
+    # rows are written for the genes themselves; the chrY copies of pseudo-autosomal genes only
+    # compete in the look-up of unversioned FusionCatcher ids
+    own = [g for g in a.genes if '_PAR_Y' not in g.id]
+    pairs = [(d, g) for d in own for g in own if d is not g or rng.random() < 0.25]
     rows = []
     for dg, ag in pairs:
         for _ in range(rng.randint(2, 5)):
@@ -1364,6 +1385,9 @@ def run(ctx: common.Ctx):
         if rng.random() < 0.15:
             trim_chromosomes(a, rng)
             ctx.count('gen', 'annotations_chromosome_trimmed')
+        if a.style == 'GENCODE' and rng.random() < 0.3:
+            add_par_y_copy(a, rng)
+            ctx.count('gen', 'annotations_with_PAR_Y_copy')
         ctx.count('gen', 'annotations')
         ctx.count('gen', 'style_' + a.style)
         process_anno(ctx, i, a, rng, S, cap, ncases)
